@@ -3,6 +3,7 @@ package vc
 import (
 	"fmt"
 	"go/types"
+	"regexp"
 	"sort"
 	"strings"
 
@@ -108,8 +109,11 @@ func (c *Ctx) Named(name string, s Sort) *Term {
 	return Var(name, s)
 }
 
+var byteWord = regexp.MustCompile(`\bbyte\b`)
+var runeWord = regexp.MustCompile(`\brune\b`)
+
 func (c *Ctx) typeTag(T types.Type) int {
-	k := typeName(T)
+	k := runeWord.ReplaceAllString(byteWord.ReplaceAllString(typeName(T), "uint8"), "int32")
 	if id, ok := c.typeTags[k]; ok {
 		return id
 	}
